@@ -400,12 +400,10 @@ int fiber_sleep(uint32_t seconds, uint32_t useconds) {
 }
 
 void fiber_fd_closed(int fd) {
-  if (event_fd < 0) {
+  if (event_fd < 0 || fd < 0 || fd >= max_fd) {
     return;
   }
 
-  assert(fd >= 0);
-  assert(fd < max_fd);
   fd_wait_info_t* const info = &wait_info[fd];
   fiber_spinlock_lock(&info->spinlock);
 #if defined(__linux__)
